@@ -95,7 +95,7 @@ func (s *sys) Reset() error {
 		for _, c := range []fsx.Call{
 			{Op: "Mkdir", A: j("a"), Perm: 0o755},
 			{Op: "WriteFile", A: j("a", "a"), Data: "hello", Perm: 0o644},
-			{Op: "Link", A: j("a", "a"), B: j("b")},
+			{Op: "Link", A: j("a", "a"), B: j("ab")},
 		} {
 			if r := fsx.Do(s.v, c); r.Kind != "ok" {
 				return fmt.Errorf("setup %s: %s", c, r)
@@ -547,7 +547,7 @@ func (s *sys) apiCheck(dump []string) []string {
 	var files []fent
 
 	// candidate names for the "Lstat succeeds => listed" direction
-	cand := map[string]bool{"a": true, "b": true, "tmp": true}
+	cand := map[string]bool{"a": true, "ab": true, "tmp": true}
 
 	for _, l := range dump {
 		if n := v.Base(pathOf(l)); n != "" && n != "." && !strings.Contains(n, s.sep) && !strings.Contains(n, ":") {
@@ -695,7 +695,8 @@ func buildOps(name string, win bool, tier string) []fsx.Call {
 		j = func(e ...string) string { return `C:\` + strings.Join(e, `\`) }
 	}
 
-	names := []string{"a", "b"}
+	// one name is a strict prefix of the other (string-prefix tests on paths)
+	names := []string{"a", "ab"}
 	paths := []string{root}
 
 	for _, x := range names {
@@ -711,7 +712,7 @@ func buildOps(name string, win bool, tier string) []fsx.Call {
 	// deliberately invalid / aliased operands
 	extra := []string{"", "a", j("a", ".."), j("a", "a", "a"), j("tmp")}
 	if tier == "thorough" {
-		extra = append(extra, ".", "..", j("a")+string(root[len(root)-1]), j("a", "b", "..", "a"))
+		extra = append(extra, ".", "..", j("a")+string(root[len(root)-1]), j("a", "ab", "..", "a"))
 	}
 
 	all := append(append([]string{}, paths...), extra...)
@@ -755,7 +756,7 @@ func buildOps(name string, win bool, tier string) []fsx.Call {
 		}
 	}
 
-	targets := []string{"a", j("a"), j("b", "a"), "..", "nope"}
+	targets := []string{"a", j("a"), j("ab", "a"), "..", "nope"}
 	for _, t := range targets {
 		for _, q := range paths {
 			ops = append(ops, fsx.Call{Op: "Symlink", A: t, B: q})
